@@ -19,7 +19,8 @@ TOK = {"forms": ["new-client"], "registers": [True], "charged": [True]}
 
 
 def hs_kind(arg):
-    """(kind, token form) of a handshake op; kind 0 = unknown non-zero client id, 1 / 2 = ClientID 0, generation ok / failing"""
+    """(kind, x) of a handshake op; kind 0 = unknown non-zero client id, 1 / 2 = ClientID 0 with token form x, generation
+    ok / failing; 3 / 4 / 5 = the registered client on long-lived connection x: phase 1, phase 2 wrong, phase 2 correct"""
     return arg % 10, arg // 10
 
 
@@ -27,6 +28,8 @@ def hs_model_kind(arg):
     kind, form = hs_kind(arg)
     if kind in (1, 2) and not TOK["registers"][form % len(TOK["registers"])]:
         return 3        # ClientID 0 with a token that does not register: charged, then `client not found`
+    if kind in (3, 4, 5):
+        return kind + 1 + 10 * form     # phase 1 / phase 2 wrong / phase 2 correct on the long-lived connection `form`
     return kind
 
 CURRENT = (1, 1, 0, 0, 0)     # [cond_unban, keep_stronger, late_goroutines, anon_resets, first_match]
@@ -397,6 +400,44 @@ def gen_regrate(rng, cfg):
     return s.ops
 
 
+def gen_multiconn(rng, cfg):
+    """one address, several connections: each collects a challenge (phase 1) while the address is below the threshold;
+    wrong responses on some put the ban in place; then every kind of handshake message arrives on the others"""
+    s = Script(rng)
+    a = rng.choice([1, 2])
+    base = 10 * a                      # connection ids are unique within a case
+    k = cfg["maxf"] + rng.randrange(1, 4)
+    for c in range(k):
+        s.op("hs", a, 3 + 10 * (base + c))
+    if rng.random() < 0.3:
+        s.wait(1)
+    for c in range(cfg["maxf"]):
+        s.op("hs", a, rng.choice([4, 4, 0]) + (10 * (base + c)))
+    s.op("query", a)
+    for _ in range(rng.randrange(3, 8)):
+        c = base + rng.randrange(cfg["maxf"], k)
+        r = rng.random()
+        if r < 0.35:
+            s.op("hs", a, 5 + 10 * c)
+        elif r < 0.55:
+            s.op("hs", a, 4 + 10 * c)
+        elif r < 0.7:
+            s.op("hs", a, 3 + 10 * (base + k + rng.randrange(3)))
+        elif r < 0.8:
+            s.op("hs", a, 1)
+        elif r < 0.9:
+            s.op("query", a)
+        else:
+            s.op("cleanup")
+        if rng.random() < 0.4:
+            s.wait(rng.choice([1, 2]))
+    s.wait(rng.choice([7, 8]))
+    s.op("hs", a, 5 + 10 * (base + k - 1))
+    s.op("hs", a, 5 + 10 * (base + k - 1))
+    s.op("query", a)
+    return s.ops
+
+
 def gen_restart_mix(rng, cfg):
     """failures, bans and admissions with a restart in between (memory-only state)"""
     s = Script(rng)
@@ -418,7 +459,7 @@ def gen_restart_mix(rng, cfg):
     return s.ops
 
 
-GENS = [("regrate", gen_regrate, 3), ("overlap", gen_overlap, 4), ("restart", gen_restart, 4), ("restartmix", gen_restart_mix, 1), ("firstfail", gen_firstfail, 2), ("anon", gen_anon, 2), ("lockout", gen_lockout, 5), ("mix", gen_mix, 6), ("perm", gen_perm, 2), ("blacklist", gen_blacklist, 3),
+GENS = [("multiconn", gen_multiconn, 3), ("regrate", gen_regrate, 3), ("overlap", gen_overlap, 4), ("restart", gen_restart, 4), ("restartmix", gen_restart_mix, 1), ("firstfail", gen_firstfail, 2), ("anon", gen_anon, 2), ("lockout", gen_lockout, 5), ("mix", gen_mix, 6), ("perm", gen_perm, 2), ("blacklist", gen_blacklist, 3),
         ("bucket", gen_bucket, 3), ("reban", gen_reban, 2)]
 
 
@@ -589,7 +630,7 @@ def spec_check(case, obs):
                     causes.append((x["t0"], x["t1"] + D + MARGIN))
                 if total >= cfg["perm"]:
                     causes.append((x["t0"], None))
-            elif mine and name == "succ":
+            elif mine and (name == "succ" or (name == "hs" and x["r"] == 4 and hs_kind(o["arg"])[0] == 5)):
                 # RecordSuccess = a verified challenge response.  A successful ANONYMOUS registration (hs answer 4)
                 # proves no credential and must not clear the record.
                 fails = []
@@ -614,7 +655,7 @@ def spec_check(case, obs):
                 adm.append((x["t0"], x["t1"], o["arg"]))
             elif mine and name == "hs" and hs_kind(o["arg"])[0] in (1, 2) and x["r"] in (3, 4):
                 adm.append((x["t0"], x["t1"], 1))
-            if mine and name == "hs" and x["r"] == 4:
+            if mine and name == "hs" and x["r"] == 4 and hs_kind(o["arg"])[0] in (1, 2):
                 regs.append((x["t0"], x["t1"], 1, TOK["forms"][hs_kind(o["arg"])[1] % len(TOK["forms"])]))
         reg_bound(ip, regs)
         bucket_bound(ip, adm)
